@@ -336,7 +336,15 @@ def _pool_exec(arg):
 def _prepared_batch(arg):
     sc, segs = arg
     _prepare(sc)
-    return [isolated(lambda a: _execute(a, prepared=True), (sc, seg)) for seg in segs]
+    out = []
+    for seg in segs:
+        ex = isolated(lambda a: _execute(a, prepared=True), (sc, seg))
+        # what a schedule's execution is judged by is small; the per-line trace is only needed for the probes that size
+        # the schedules (the thorough tier held 50 GB of such traces in the parent before this)
+        ex.pop('steps', None)
+        ex['executed'] = bytes(bytearray(min(int(t), 255) for t in ex['executed']))
+        out.append(ex)
+    return out
 
 
 def _pool_batch(arg):
@@ -559,6 +567,13 @@ def run(tier):
                 k = e
             execs = [x for part in pool.map(_pool_batch, batches, chunksize=1) for x in part]
         phases['executions'] = round(_t.time() - t0, 1)
+        if os.environ.get('C16_MEMDEBUG'):
+            import pickle
+            tot = {}
+            for ex in execs:
+                for k_, v_ in ex.items():
+                    tot[k_] = tot.get(k_, 0) + len(pickle.dumps(v_))
+            sys.stderr.write('MEMDEBUG %d executions, bytes by field %s\n' % (len(execs), tot))
         cpu = {}
         for (s, seg), ex in zip(jobs, execs):
             c = cpu.setdefault('%s/%s' % (s['group'], s['variant']), [0, 0.0, 0.0])
@@ -660,7 +675,7 @@ def run(tier):
         phases['pluscal_trace_validation'] = round(_t.time() - t0, 1)
         rep.setcov('phase_end_s', phases)
         for (s, seg), ex in zip(jobs, execs):
-            distinct.add((s['id'], tuple(ex['executed'])))
+            distinct.add((s['id'], bytes(ex['executed']) if not isinstance(ex['executed'], bytes) else ex['executed']))
         rep.setcov('scenarios', len(S))
         rep.setcov('schedules_executed', len(jobs))
         rep.setcov('distinct_nontrivial', len(distinct))
@@ -672,7 +687,7 @@ def run(tier):
         for q in (0, len(jobs) // 2, len(jobs) - 1):
             s, seg = jobs[q]
             rep.sample({'calls': [repr(c) for c in s['calls']], 'variant': s['variant'], 'segments': seg,
-                        'results': execs[q]['results'], 'interleaving': ''.join(map(str, execs[q]['executed']))[:120]})
+                        'results': execs[q]['results'], 'interleaving': ''.join(map(str, list(execs[q]['executed'])))[:120]})
     rep.assumptions += ['granularity is the source line inside athlib (sys.settrace line events); C-level atomicity under the GIL is assumed',
                         'pre-emptions only at AST-detected visible lines (self.* or module-global access); bound: %d forced pre-emptions' % (1 if quick else 2),
                         'single-threaded reference = the same call made alone in a fresh forked process in the same warm/prefill state']
